@@ -274,8 +274,9 @@ def run_check(mod, tier, seed, procs=None):
         'known_findings_matched': sorted(printed_known),
         'repo_head': _repo_head(),
     }
-    os.makedirs(os.path.join(VERIF, 'evidence'), exist_ok=True)
-    with open(os.path.join(VERIF, 'evidence', prop + '.json'), 'w') as f:
+    evdir = os.environ.get('VERIF_EVIDENCE_DIR') or os.path.join(VERIF, 'evidence')
+    os.makedirs(evdir, exist_ok=True)
+    with open(os.path.join(evdir, prop + '.json'), 'w') as f:
         json.dump(evidence, f, indent=1, sort_keys=True)
         f.write('\n')
     print('%s tier=%s seed=%d evaluations=%d distinct_nontrivial=%d outcomes=%d violations=%d known=%d wall=%.1fs'
